@@ -42,6 +42,15 @@ func InitVisited(ctx context.Context) context.Context {
 	return ctx
 }
 
+// ResetVisited returns a context without a visited set, so that the next
+// InitVisited or CheckAndAddVisited below it starts a new one.
+func ResetVisited(ctx context.Context) context.Context {
+	if _, ok := ctx.Value(visitedMapKey).(*stringSet); !ok {
+		return ctx
+	}
+	return context.WithValue(ctx, visitedMapKey, nil)
+}
+
 func CheckAndAddVisited(ctx context.Context, current relationtuple.Subject) (context.Context, bool) {
 	set, ok := ctx.Value(visitedMapKey).(*stringSet)
 	if !ok {
